@@ -563,8 +563,10 @@ fn run_history(out: &mut Out, ops_in: Option<Vec<Op>>, rng: &mut Rng, scale_bits
         let op = match &ops_in {
             Some(v) => v[i].clone(),
             None => {
-                // a rollback that would panic ends the history: issue those rarely
-                let defined = rf.snap.as_ref().map(|s| s.hp >= rf.f.hp && s.stk_hi <= rf.f.stk_hi).unwrap_or(true);
+                // a rollback to a snapshot whose heap pointer is below the current one panics
+                // (documented assertion) and ends the history: issue those rarely.  A snapshot whose
+                // stack extent exceeds the current one is fine since 75e7afe.
+                let defined = rf.snap.as_ref().map(|s| s.hp >= rf.f.hp).unwrap_or(true);
                 g.next_op(&rf.f, rf.snap.is_some(), defined, i)
             }
         };
@@ -690,9 +692,15 @@ fn corpus() -> Vec<(&'static str, Vec<Op>)> {
         ]),
         // rollback to a snapshot whose heap pointer is lower: documented panic
         ("rollback-heap-grew", vec![Op::GrowHeap { sp: 0, amount: 100 }, Op::Snapshot, Op::Reset, Op::Rollback]),
-        // rollback after the heap has overtaken the snapshot's stack extent
+        // rollback after the heap has overtaken the snapshot's stack extent (panicked before 75e7afe)
         ("rollback-stack-short", vec![
-            Op::GrowStack(1000), Op::Write(900, vec![1, 2, 3]), Op::Snapshot, Op::GrowHeap { sp: 0, amount: MEM - 500 }, Op::Rollback, Op::Read(0, 1000),
+            Op::GrowStack(1000), Op::Write(900, vec![1, 2, 3]), Op::Snapshot, Op::GrowHeap { sp: 0, amount: MEM - 500 }, Op::Rollback, Op::Read(898, 6), Op::Read(0, 1000),
+            Op::Verify(0, 1001), Op::GrowHeap { sp: 1000, amount: 16 }, Op::Read(MEM - 16, 16),
+        ]),
+        // the same after a reset, and with a dirty region between the two extents
+        ("rollback-stack-short-after-reset", vec![
+            Op::GrowStack(300), Op::Write(0, vec![7; 16]), Op::Write(280, vec![9; 20]), Op::Snapshot, Op::Reset, Op::Rollback, Op::Read(0, 300),
+            Op::Reset, Op::GrowStack(100), Op::Write(50, vec![5; 8]), Op::Rollback, Op::Read(0, 300), Op::Rollback,
         ]),
     ]
 }
